@@ -11,13 +11,35 @@ use crate::worker::{WorkerChild, WorkerReply};
 
 pub struct C08;
 
-fn gen_case(c: &mut Choices) -> Case {
+pub fn gen_case(c: &mut Choices) -> Case {
     if c.chance(1, 40) {
         let depth = c.range(20, 150);
         let comp = c.bool();
         let opts = any_opts(c, true, false);
         let mut case = Case::new(deep_nest(depth, comp), "jsx", Some(opts.json()));
         case.label("adversarial=deep-nesting");
+        case.nontrivial = true;
+        return case;
+    }
+    if c.chance(1, 3) {
+        // the type-resolution and semantic generators of the other properties: their inputs
+        // must be transformed deterministically too
+        let mut case = match c.pick(8) {
+            0 => crate::props::c16::gen_case(c),
+            1 => crate::props::c17::gen_c17(c),
+            2 | 3 => crate::props::c17::gen_c19(c),
+            4 => crate::props::c18::gen_case(c),
+            5 => crate::props::c20::gen_case(c),
+            6 => {
+                use crate::runner::Property;
+                crate::props::c06::C06.generate(c)
+            }
+            _ => {
+                use crate::runner::Property;
+                crate::props::semprops::C12.generate(c)
+            }
+        };
+        case.label("adversarial=other-generators");
         case.nontrivial = true;
         return case;
     }
@@ -190,6 +212,6 @@ impl Property for C08 {
         v
     }
     fn required_labels(&self) -> Vec<&'static str> {
-        vec!["adversarial=directive-jsx-value", "adversarial=deep-nesting"]
+        vec!["adversarial=directive-jsx-value", "adversarial=deep-nesting", "adversarial=other-generators"]
     }
 }
